@@ -56,7 +56,7 @@ def readme():
         f.write("# Seeded changes\n\n"
                 "Every directory holds `patch.diff` (applies to /repo at the repository root), `demo.py` (fails with the\n"
                 "patch, passes without) and `meta.json` (what it breaks, what it needs to manifest, what was run, which\n"
-                "checks report it and with which signatures). `agent-*`/`agent3-*`/`agent4-*`/`agent6-*` were written by independent sub-agents that saw only\n"
+                "checks report it and with which signatures). `agent-*`/`agent3-*`/`agent4-*`/`agent6-*`/`agent7-*` were written by independent sub-agents that saw only\n"
                 "the property text; `regression-*` are the reverse patches of the `fix:` commits (the original defects).\n"
                 "All were confirmed by `tools/seed_eval.py`: the repository's suite passes with the patch (164 passed),\n"
                 "the demo exits non-zero with it and zero without it. Regenerate with `tools/seed_matrix.py`.\n\n"
@@ -84,14 +84,14 @@ def design_section(rows):
     out = [head, "",
            f"`seeded/` holds {total} deliberate property-breaking changes, each confirmed by `tools/seed_eval.py` on a scratch",
            "copy of `/repo` (patch applies; the repository's own suite still reports 164 passed; the author's",
-           "demonstration fails with the patch and passes without it). `agent-*` (2 per property), `agent3-*`, `agent4-*` and `agent6-*`",
+           "demonstration fails with the patch and passes without it). `agent-*` (2 per property), `agent3-*`, `agent4-*`, `agent6-*` and `agent7-*`",
            "(3 per property each) were written by independent sub-agents that were given only the text of one property and",
            "a scratch worktree - nothing from `/verif`; `regression-*` are the reverse patches of the `fix:` commits.",
            f"With the checks as committed, {tc} of {total} are reported (VIOLATION, exit 1) by the quick tier of the check of",
            "the property they were written against; `seeded/README.md` lists, per seed, the change, what it needs to",
            "manifest and the signatures that report it.",
            "",
-           "The seeds arrived in five waves (1-4 and 6; wave 5 was the property-preserving counter-test) and the checks were strengthened after each; what each miss taught:",
+           "The seeds arrived in six waves (1-4, 6, 7; wave 5 was the property-preserving counter-test) and the checks were strengthened after each; what each miss taught:",
            "",
            "| wave | missed at first | what was added |",
            "|---|---|---|",
@@ -101,6 +101,7 @@ def design_section(rows):
            "| 4 (asked for helper-module changes, cooperating edits that are harmless alone, boundary inputs and multi-step histories) | C01/C02 memoised staging store + reference kept for a known id; `.dir` object not verified by a verifying transfer; C02 `check()` comparing the full id (directory object deleted by the first checkout); C03 state hits re-paired by position; C04 `missing` intersected with the request; C05 same-size same-mtime replacement, token taken at record time instead of scan time; C06 NFC-normalised listing keys, `HashInfo` membership on a legacy store, de-duplication by bare value; C07 two-chunk CRLF text, post-add check skipped for ids that passed the pre-check; C08 inode excluded from `Meta` equality, directory type taken from an empty `HashInfo`; C09 failed directories filtered through a set whose members mutate; C10 memoised link metadata; C11 `obj_name` in `HashInfo` equality; C12 skipped directories indexed; C13 inode serialised + unknown mtime ignored, `lstat` identity for symlinks; C14 cached `hash_value`; C15 directory objects saved inside the per-file-system loop, pre-check only without `check_exists`; C16 module-level read buffer; C17 falsy metadata dropped by `from_dict`, `loaded` flag never persisted; C18 `FileNotFoundError` ignored by the transfer error callback; C19 memoised `load()` + in-place merge | C01 part 2 (workspace renamed / rewritten between a stage-only and a stage+transfer; damaged protected sources under verifying transfers); C02 second round trip from the same store, restaging; C03 partially known hash-state; expanded requests with files missing on both sides (C04), source lacking a listed file (C12); C05 `swapped` mutation and the in-flight part (user edit before each of the call's accesses, for files the checkout leaves alone); C06 twin-algorithm ids ahead of the store's own, legacy-algorithm store, names differing only in normalisation form; C07 legacy two-chunk object, forced verified adds; C08 inode-only variant, empty-`HashInfo` directories; C09 application-installed load-error handler, same outcome demanded; C10 third relink; labelled ids (C11); C13 previous index through its serialised forms, staged symlink; C14 polling `hash_value`; C15 two-file-system and verifying index save; C16 data-read pass; C17 sizes in the directory object, empty file, `persist` op; ENOENT upload failures (C04/C11/C18); harness: per-case process isolation so that library-global memo tables cannot leak between cases, C19 public merges replayed as one session |",
            "| 5 (the opposite test: 60 property-*preserving* refactorings - restructured loops, batching, sorted instead of set order, merged stat calls, renamed private helpers, `executor.map` instead of `imap_unordered`, different temp names; kept under `benign/`) | no check may report them. On the final checks all 60 are silent (`tools/benign_eval.py`: patch applies, suite passes, author's demo passes with and without, the quick tier of the own check and of every check anchored in a touched file exits 0). Two alarms on the way were mine: the hashing-pool stub only offered `imap_unordered`, and a freshly added C01 operation had two oracle errors (section 10) | pool stub offers `map` / `submit` too; C01 corrected |",
            "| 6 (asked for what a small-scope explorer misses: size / count thresholds, non-default arguments, rarely used entry points, environment-dependent branches) | 37 of 60 at first: batches of 512 / 999 / 1000 objects dropping or skipping an element (gc, `_add`, `_do_transfer`, `set_many`, `get_many`, `oids_exist`, `write_db`, index validation pages); files above 1 MiB / 2 MiB (prefix-only hashing, a lone large file never hashed, listings larger than the chunk); paths spelled with a trailing separator or `..` (store, workspace, State root); stores of another algorithm (sha256, sha1, legacy) in gc / merge / transfer / state rows; `roots=`, `ignore=`, `hardlink=True`+`verify`, `check_exists=False`, `read_only` cache, `cache_index` reuse, `get_index` sharing a tmp_dir, explicit `FileStorage` prefix, `index.update` within the same second, two caches / two file systems in one index, dangling workspace links, a remote configured to verify on fetch, `Tree.load(hash_name=)`, rewriting a JSON file over a longer one | a shared bulk alphabet of 1300 tiny objects (C04, C06, C07, C10, C12, C15, C16, C18, C19 20000-entry merge, C20 2500 entries); path-spelling dimension (C05, C06, C10, C16); other-algorithm store kinds (C01 `mig L->G`, C04, C06, C13, C14, C19); C02 `index-prefix` / `index-update` paths and a lone large file; C03 upload builds; C07 verifying transfer of a directory member; C08 `roots` and lazily loaded directories seen through views; C09 special shapes; C11 hard-link adds and index-level fetch; C12 special shapes; C15 three more scenarios; C18 special variants; one genuine defect found and fixed on the way (`435cc42`) |",
+           "| 7 (asked for bugs that depend on a special *value* of a name, digest, content or metadata field) | 50 of 59 at first: leading-dot names stripped by `lstrip('./')`, backslashes turned into separators, blanks stripped, NFC normalisation, `..` substring guards, string-prefix instead of component-prefix matches (sibling `data` / `data.bak`, store `dest` / `dest.src`); upper-case or quoted digests folded; the empty listing `[]` and the zero-byte object treated as absent / corrupt; `rstrip('.dir')` eating digests that end in `d`; two objects sharing the fan-out directory; lone CR, NUL after byte 512, CR LF in a plain md5 store, the 30-31 % text ratio, `md5-sha1`; mtimes of 0, before the epoch or differing below the microsecond; permission mode 0466 | one shared special-name tree and a fan-out-prefix pair (`lab.SPECIAL_TREE`, `lab.TWINS`) used by C02, C04, C11, C12, C18; special names in the alphabets of C06, C09, C10, C16, C17, C19, C20; upper-case / quoted values (C06, C07, C08, C19, C20); empty directory objects (C06, C09, C16, C17) and the zero-byte object (C05, C12, C15); delicate legacy contents (C01, C13, C14); half-microsecond clock steps (C02, C03, C07, C13), epoch and pre-epoch mtimes (C05, C10, C13); mode 0466 and unprotected-but-intact objects (C07, C18). **Two genuine defects of the unchanged library** surfaced from sub-agents' side remarks and were repaired (`5d184fa`, `326413d`, section 9). Not reported by the quick tier of their own check: C11-3 (listing keys with `.`, empty or `..` components - no file system produces them), C13-1 (needs a crafted (mtime, size) pair whose decimal digits concatenate identically), C13-2 (needs depth 4: thorough tier), C15-2 / C15-3 / C16-1 (reported by C13 / C01 / C13+C03 instead: the defect is in hashing, not in crash or schedule handling); one seed (C05-1) stopped breaking the property after fix `5d184fa` and was dropped |",
            "",
            "Two of the sub-agents' remarks about the *unchanged* library led to repairs (section 9): the `hash_file` TOCTOU",
            "(found when a wave-2 seed made me inject writes inside library calls) and the dry-run removal of legacy",
